@@ -279,6 +279,25 @@ def check_C03(sc: dict, out, facts: Facts, strict_plan: bool = True) -> list[dic
                     node_meta.setdefault(n, m)
             if n in facts.begins:
                 stack += out.instance_children.get(s, [])
+        # ... with the outcome of *its own* task: executed tasks have start times of their own (the clocks of
+        # every substrate see to that), and a task that failed in this call is not stamped by another's success
+        if not vs and not sc.get('coarse_clock') and not sc.get('real_clock') and not sc.get('earlier_call'):
+            executed_ok = {n for n in done_nodes if n in facts.ends}
+            by_start: dict = {}
+            for n, m in node_meta.items():
+                if n in executed_ok and m is not None:
+                    by_start.setdefault(m[0], set()).add(n)
+            shared = [sorted(ns) for ns in by_start.values() if len(ns) > 1]
+            if shared:
+                vs.append(V('C03', 'marked-with-another-tasks-meta', f'instances of the different executed nodes {shared[0]} carry the same '
+                            f'result_meta start time {[k for k, v in by_start.items() if len(v) > 1][0]}'))
+            failed_nodes = {n for (_i, n, st) in facts.completes if st != 'ok'}
+            for s2 in sorted(seen):
+                n = out.instance_node[s2]
+                if n in failed_nodes and n not in done_nodes and meta_of.get(s2) is not None:
+                    vs.append(V('C03', 'failed-task-marked', f'node {n} ({ref.tname(n)}) failed in this call, yet an instance of it carries '
+                                f'result_meta {meta_of.get(s2)}'))
+                    break
     return vs
 
 
